@@ -410,6 +410,7 @@ def check(ctx):
     with ctx.shared({"C06.R4": ("C18.R10", "copying the other sockets' records into a shadow table: a record that cannot be added (allocation failure) "
                                 "fails the whole copy - the walk's error flag is a latch that later successful adds do not lower")}):
         C06.r4(ctx, retsets)
+        C06.r4_spki_latch(ctx, retsets)
     ctx.not_decided("set semantics after the k-th allocation failure for every k over whole operation histories (C02 composed with R2/R3)")
     ctx.not_decided("allocation behaviour inside OpenSSL / libssh and in the transports (outside the property's anchors)")
 
